@@ -51,18 +51,22 @@ func plan(seed int64, tier string) []vrt.Case {
 	add := func(kind string, idx, n int) {
 		cs = append(cs, vrt.Case{ID: fmt.Sprintf("%s-%d", kind, idx), Params: vrt.MustParams(params{Kind: kind, Seed: seed, Idx: idx, N: n}), TimeoutS: 900})
 	}
-	add("fixed", 0, 0)
-	for i := 0; i < len(lineLengths); i++ {
-		add("lines", i, 0)
-	}
-	for i := 0; i < len(straddleBefore); i++ {
-		add("straddle", i, 0)
-	}
 	nRand, per := 100, 250
 	if tier == "thorough" {
 		nRand, per = 800, 750
 	}
-	for i := 0; i < nRand; i++ {
+	// one case of every kind first (they become the evidence samples), then the rest
+	add("fixed", 0, 0)
+	add("lines", 0, 0)
+	add("straddle", 0, 0)
+	add("random", 0, per)
+	for i := 1; i < len(lineLengths); i++ {
+		add("lines", i, 0)
+	}
+	for i := 1; i < len(straddleBefore); i++ {
+		add("straddle", i, 0)
+	}
+	for i := 1; i < nRand; i++ {
 		add("random", i, per)
 	}
 	return cs
@@ -314,7 +318,7 @@ func runLines(c *ctx, idx int) {
 			}
 		}
 	}
-	c.o.Sample = map[string]any{"kind": "lines", "line_lengths_latin1_bytes": lineLengths[idx], "units": units, "contexts": 6}
+	c.o.Sample = map[string]any{"kind": "lines", "line_lengths_latin1_bytes": fmt.Sprint(lineLengths[idx]), "units": strings.Join(units, " | "), "contexts_per_line": 6}
 }
 
 func runStraddle(c *ctx, idx int) {
@@ -334,7 +338,7 @@ func runStraddle(c *ctx, idx int) {
 		}
 	}
 	c.o.Count("straddle_probes", int64(n))
-	c.o.Sample = map[string]any{"kind": "straddle", "two_byte_chars_before_probe": k, "latin1_positions": "985..1010, 1983..2008, 2981..3006", "probes": []string{"æ", "U+0080", "ÿ", "æø"}}
+	c.o.Sample = map[string]any{"kind": "straddle", "two_byte_chars_before_probe": k, "latin1_positions": "985..1010, 1983..2008, 2981..3006", "probes": "æ | U+0080 | ÿ | æø"}
 }
 
 func runFixed(c *ctx) {
